@@ -15,7 +15,7 @@ def main(argv):
     seed = int(seed)
     shard = int(shard)
     from . import env
-    from .monitor import Ctx, Monitor, StepBudget
+    from .monitor import Ctx, LineReach, Monitor, StepBudget
     L = env.load()
     mod = importlib.import_module('vf.props.' + prop.lower())
     ctx = Ctx(L, prop, tier, seed, shard)
@@ -27,6 +27,8 @@ def main(argv):
     mon = Monitor(ctx, step_budget=budget, budget_judged=judged)
     mon.contracts = mod.contracts(ctx, mon)
     mon.install()
+    reach = LineReach(L)
+    reach.install()
     ctx.extra['lib_file'] = L.core.__file__
     t0 = time.time()
     try:
@@ -36,6 +38,8 @@ def main(argv):
     mon.active = False
     d = ctx.dump()
     d['wall_s'] = time.time() - t0
+    if reach.installed:
+        d['line_reach'] = reach.dump()
     if judged:
         d['step_budget'] = budget.budget
     tmp = out + '.tmp'
